@@ -2786,6 +2786,12 @@ impl<'a> Tyck<'a> for TyEnvT<su::PatId> {
                     | Switch::Syn => tycker
                         .err_k(TyckError::MissingAnnotation, std::panic::Location::caller())?,
                     | Switch::Ana(ann) => {
+                        // like a variable, a wildcard stands for a value: its type is a value type
+                        if let AnnId::Type(ty) = ann {
+                            let vtype = ss::VType.build(tycker, &self.info);
+                            let kd = tycker.statics.type_kind(ty);
+                            Lub::lub_k(vtype, kd, tycker)?;
+                        }
                         let ann = PatternLeaf::Hole.materialize(tycker, &self.info, ann);
                         self.mk(PatternCheck::new(ann))
                     }
